@@ -708,3 +708,285 @@ def kraus_sandwich_terms(term):
             a, x, b = s[1]
             out.append((b == ("dag", a) or (a[0] == "dag" and False), s))
     return out
+
+
+# ---------------------------------------------------------------------------------------------
+def _isinstance_kinds(f: FunctionInfo, pname: str):
+    """Type names tested with isinstance(pname, ...) anywhere in f."""
+    kinds = set()
+    for n in walk_no_nested(f.node):
+        if isinstance(n, ast.Call) and isinstance(n.func, ast.Name) and n.func.id == "isinstance" and len(n.args) == 2 and \
+                isinstance(n.args[0], ast.Name) and n.args[0].id == pname:
+            t = n.args[1]
+            els = t.elts if isinstance(t, ast.Tuple) else [t]
+            for e in els:
+                kinds.add(unparse(e).split(".")[-1])
+    return kinds
+
+
+def r_kind_int(ctx, f: FunctionInfo, pname: str, rule="R-KIND", _seen=None):
+    """A parameter declared `int | ...` must have a path for a Python int: either the function discriminates int itself,
+    or it hands the parameter on to a callee that does, before any sequence operation (len, subscript, .shape, iteration)
+    is applied to it."""
+    model = ctx.model
+    _seen = _seen or set()
+    p = f.param(pname)
+    key = f"{pname}: int alternative handled"
+    if p is None:
+        ctx.ob(rule, f, key, False, f"parameter `{pname}` no longer exists")
+        return None
+    ann = unparse(p.annotation) if p.annotation is not None else ""
+    if "int" not in [x.strip() for x in ann.replace("None", "").split("|")]:
+        ctx.ob(rule, f, key, None, f"`{pname}` is declared `{ann}`", required=False)
+        return None
+    verdict = _kind_int_handled(model, f, pname, set())
+    if verdict[0] is True:
+        ctx.ob(rule, f, key, True, verdict[1])
+    elif verdict[0] is False:
+        ctx.ob(rule, f, key, False, f"`{pname}` is declared `{ann}` but {verdict[1]}", verdict[2])
+    else:
+        ctx.ob(rule, f, key, None, verdict[1], required=False)
+    return verdict[0]
+
+
+SEQ_KINDS = {"list", "ndarray", "tuple", "Sequence", "matrix"}
+INT_KINDS = {"int", "Integral", "Number", "integer", "float"}
+
+
+class _MayBeInt:
+    """Abstract execution of the function body specialised to `p` being a Python int: isinstance / is-None tests on p
+    are decided, integer constants assigned on the way are tracked so that correlated flags (`num_sys = 1` ...
+    `if num_sys == 1:`) are followed, undecidable tests fork.  Records sequence operations applied to p while it is
+    still the int, and calls that receive it."""
+
+    def __init__(self, f, pname):
+        self.f = f
+        self.p = pname
+        self.hits = []
+        self.passed = []
+        self.block(f.node.body, (True, {}))
+
+    # -- test evaluation ----------------------------------------------------------------------
+    def decide(self, test, st):
+        """True / False / None (unknown) under the assumption that p is an int (if st[0])"""
+        alive, consts = st
+        t = test
+        if isinstance(t, ast.UnaryOp) and isinstance(t.op, ast.Not):
+            d = self.decide(t.operand, st)
+            return None if d is None else (not d)
+        if isinstance(t, ast.BoolOp):
+            ds = [self.decide(v, st) for v in t.values]
+            if isinstance(t.op, ast.And):
+                if any(d is False for d in ds):
+                    return False
+                return True if all(d is True for d in ds) else None
+            if any(d is True for d in ds):
+                return True
+            return False if all(d is False for d in ds) else None
+        if alive and isinstance(t, ast.Call) and isinstance(t.func, ast.Name) and t.func.id == "isinstance" and len(t.args) == 2 and \
+                isinstance(t.args[0], ast.Name) and t.args[0].id == self.p:
+            k = t.args[1]
+            kinds = {unparse(e).split(".")[-1] for e in (k.elts if isinstance(k, ast.Tuple) else [k])}
+            if kinds & {"int", "Integral", "Number", "integer", "object"}:
+                return True
+            if kinds <= (SEQ_KINDS | {"float", "str", "dict", "set", "Variable", "Expression", "complex", "floating"}):
+                return False
+            return None
+        if alive and isinstance(t, ast.Compare) and len(t.ops) == 1 and isinstance(t.left, ast.Name) and t.left.id == self.p and \
+                isinstance(t.comparators[0], ast.Constant) and t.comparators[0].value is None:
+            if isinstance(t.ops[0], ast.Is):
+                return False
+            if isinstance(t.ops[0], ast.IsNot):
+                return True
+        if isinstance(t, ast.Compare) and len(t.ops) == 1:
+            a, b = self.cval(t.left, consts), self.cval(t.comparators[0], consts)
+            if a is not None and b is not None:
+                op = t.ops[0]
+                try:
+                    return {ast.Eq: a == b, ast.NotEq: a != b, ast.Lt: a < b, ast.LtE: a <= b, ast.Gt: a > b, ast.GtE: a >= b}.get(type(op))
+                except TypeError:
+                    return None
+        return None
+
+    @staticmethod
+    def cval(e, consts):
+        if isinstance(e, ast.Constant) and isinstance(e.value, (int, float)) and not isinstance(e.value, bool):
+            return e.value
+        if isinstance(e, ast.Name) and e.id in consts:
+            return consts[e.id]
+        return None
+
+    # -- expressions ------------------------------------------------------------------------------
+    def expr(self, e, st):
+        if e is None or st is None or not st[0]:
+            return
+        if isinstance(e, ast.IfExp):
+            d = self.decide(e.test, st)
+            self.expr(e.test, st)
+            if d is not False:
+                self.expr(e.body, st)
+            if d is not True:
+                self.expr(e.orelse, st)
+            return
+        if isinstance(e, ast.BoolOp):
+            for v in e.values:
+                self.expr(v, st)
+                d = self.decide(v, st)
+                if (isinstance(e.op, ast.And) and d is False) or (isinstance(e.op, ast.Or) and d is True):
+                    break
+            return
+        p = self.p
+        if isinstance(e, ast.Call) and any(isinstance(a, ast.Name) and a.id == p for a in list(e.args) + [k.value for k in e.keywords]):
+            self.passed.append(e)
+        if isinstance(e, ast.Call) and isinstance(e.func, ast.Name) and e.func.id in ("len", "iter", "enumerate", "zip", "min", "max", "sum", "sorted", "list", "tuple") and \
+                any(isinstance(a, ast.Name) and a.id == p for a in e.args):
+            self.hits.append((e, f"`{unparse(e)}` is applied to it"))
+        elif isinstance(e, ast.Subscript) and isinstance(e.value, ast.Name) and e.value.id == p and isinstance(e.ctx, ast.Load):
+            self.hits.append((e, f"it is subscripted (`{unparse(e)}`)"))
+        elif isinstance(e, ast.Attribute) and isinstance(e.value, ast.Name) and e.value.id == p and e.attr in ("shape", "ndim", "T", "astype", "flatten", "tolist", "size"):
+            self.hits.append((e, f"`.{e.attr}` is taken of it"))
+        elif isinstance(e, (ast.ListComp, ast.SetComp, ast.GeneratorExp, ast.DictComp)):
+            for g in e.generators:
+                if isinstance(g.iter, ast.Name) and g.iter.id == p:
+                    self.hits.append((g.iter, "it is iterated"))
+        for ch in ast.iter_child_nodes(e):
+            if isinstance(ch, ast.comprehension):
+                self.expr(ch.iter, st)
+                for c in ch.ifs:
+                    self.expr(c, st)
+            elif isinstance(ch, ast.keyword):
+                self.expr(ch.value, st)
+            elif isinstance(ch, ast.expr):
+                self.expr(ch, st)
+
+    # -- statements -------------------------------------------------------------------------------
+    @staticmethod
+    def merge(a, b):
+        if a is None:
+            return b
+        if b is None:
+            return a
+        consts = {k: v for k, v in a[1].items() if b[1].get(k) == v}
+        return (a[0] or b[0], consts)
+
+    def block(self, body, st):
+        for s in body:
+            st = self.stmt(s, st)
+            if st is None:
+                return None
+        return st
+
+    def stmt(self, s, st):  # noqa: C901
+        if isinstance(s, (ast.FunctionDef, ast.AsyncFunctionDef, ast.ClassDef)):
+            return st
+        if isinstance(s, ast.If):
+            self.expr(s.test, st)
+            d = self.decide(s.test, st)
+            # walrus in the test: `(num_sys := len(dim)) == 1`
+            ra = rb = None
+            if d is not False:
+                ra = self.block(s.body, (st[0], dict(st[1])))
+            if d is not True:
+                rb = self.block(s.orelse, (st[0], dict(st[1])))
+            if d is True:
+                return ra
+            if d is False:
+                return rb
+            return self.merge(ra, rb)
+        if isinstance(s, (ast.For, ast.AsyncFor)):
+            if isinstance(s.iter, ast.Name) and s.iter.id == self.p and st[0]:
+                self.hits.append((s.iter, "it is iterated"))
+            self.expr(s.iter, st)
+            inner = (st[0], {})
+            r = self.block(s.body, inner)
+            return self.merge((st[0], {}), r) if r is not None else (st[0], {})
+        if isinstance(s, ast.While):
+            self.expr(s.test, st)
+            r = self.block(s.body, (st[0], {}))
+            return self.merge((st[0], {}), r) if r is not None else (st[0], {})
+        if isinstance(s, (ast.With, ast.AsyncWith)):
+            return self.block(s.body, st)
+        if isinstance(s, ast.Try):
+            r = self.block(s.body, (st[0], dict(st[1])))
+            out = r
+            for h in s.handlers:
+                out = self.merge(out, self.block(h.body, (st[0], {})))
+            return out
+        if isinstance(s, (ast.Return, ast.Raise)):
+            self.expr(getattr(s, "value", None) or getattr(s, "exc", None), st)
+            return None
+        if isinstance(s, ast.Assign):
+            self.expr(s.value, st)
+            alive, consts = st
+            consts = dict(consts)
+            for t in s.targets:
+                if isinstance(t, ast.Name):
+                    if t.id == self.p:
+                        alive = False
+                    v = self.cval(s.value, consts)
+                    if v is not None:
+                        consts[t.id] = v
+                    else:
+                        consts.pop(t.id, None)
+                elif isinstance(t, (ast.Tuple, ast.List)):
+                    for e in t.elts:
+                        if isinstance(e, ast.Name):
+                            consts.pop(e.id, None)
+                            if e.id == self.p:
+                                alive = False
+                elif isinstance(t, ast.Subscript):
+                    self.expr(t.slice, st)
+                    if isinstance(t.value, ast.Name) and t.value.id == self.p and alive:
+                        self.hits.append((t, f"an item of it is assigned (`{unparse(t)}`)"))
+            return (alive, consts)
+        if isinstance(s, ast.AugAssign):
+            self.expr(s.value, st)
+            consts = dict(st[1])
+            if isinstance(s.target, ast.Name):
+                consts.pop(s.target.id, None)
+            return (st[0], consts)
+        if isinstance(s, ast.AnnAssign):
+            self.expr(s.value, st)
+            if isinstance(s.target, ast.Name) and s.target.id == self.p:
+                return (False, st[1])
+            return st
+        if isinstance(s, ast.Expr):
+            self.expr(s.value, st)
+            return st
+        if isinstance(s, ast.Match):
+            out = st
+            for c in s.cases:
+                out = self.merge(out, self.block(c.body, (st[0], dict(st[1]))))
+            return out
+        return st
+
+
+def _kind_int_handled(model, f, pname, seen):
+    if f.qualname in seen:
+        return (None, "recursive delegation", None)
+    seen = seen | {f.qualname}
+    kinds = _isinstance_kinds(f, pname)
+    mb = _MayBeInt(f, pname)
+    seq_ops = sorted(mb.hits, key=lambda x: getattr(x[0], "lineno", 0))
+    # delegation: the parameter is passed on unchanged to a repo function
+    deleg = []
+    for c in mb.passed:
+        cal = model.resolve_call(f, c)
+        if cal.kind == "repo" and cal.func is not None:
+            b = model.bind(c, cal.func)
+            for formal, a in b.items():
+                if isinstance(a, ast.Name) and a.id == pname and isinstance(formal, str) and not formal.startswith("*"):
+                    deleg.append((c, cal.func, formal))
+    if seq_ops:
+        one_sided = " (the function tests isinstance(.., float) only: a one-sided discrimination)" if "float" in kinds and "int" not in kinds else ""
+        first = seq_ops[0]
+        return (False, f"{first[1]} on a path where it can still be a Python int{one_sided}", first[0])
+    if deleg:
+        verdicts = [_kind_int_handled(model, callee, formal, seen) for c, callee, formal in deleg]
+        bad = [v for v in verdicts if v[0] is False]
+        if bad:
+            return (False, f"it is forwarded to {deleg[verdicts.index(bad[0])][1].name}, where {bad[0][1]}", deleg[verdicts.index(bad[0])][0])
+        if all(v[0] is True for v in verdicts):
+            return (True, f"no sequence operation while it may be an int; forwarded to {', '.join(sorted({d[1].name for d in deleg}))}, which handle int", None)
+        return (None, "forwarded to callees with unknown handling", None)
+    return (True, "no sequence operation is applied while the parameter may still be a Python int", None)
